@@ -47,6 +47,8 @@ fn main() {
                 // Every k-th allocation failing.
                 for k in 0..k_allocs {
                     let mut cs = base.clone();
+                    // Allocations made by operations after construction (GPU) are included.
+                    cs.usage = 3;
                     cs.fail_at = Some(k);
                     run(&cs, format!("DMA allocation #{} of {} fails", k, k_allocs), &mut c, &mut ev, &mut classes);
                 }
